@@ -256,6 +256,26 @@ def Tree.route (t : Tree α) (x : Nat → α) : Nat → Nat → Int
       | some th => if le (x f) th then t.route x fuel (t.left[node]!).toNat else t.route x fuel (t.right[node]!).toNat
       | none => t.target[node]!
 
+def rep (s : String) (n : Nat) : String := String.join (List.replicate n s)
+
+/-- `print_kauri_tree.print_node`: the lines printed for the subtree of `node`.  `showThr` renders a threshold as
+    Python's f-string does, `name f` is `feature_names[f]` or the default `X[:, f]`. -/
+def Tree.printNode (t : Tree α) (showThr : α → String) (name : Int → String) : Nat → Nat → List String
+  | 0, _ => []
+  | fuel + 1, node =>
+    let pre := rep "| " (t.depths[node]!)
+    if t.left[node]! == -1 then
+      [pre ++ s!"Node {node}", pre ++ " " ++ s!"Cluster: {t.target[node]!}"]
+    else
+      let f := (t.feat[node]!).getD 0
+      let th := match t.thr[node]! with
+        | some x => showThr x
+        | none => "None"
+      [pre ++ s!"Node {node}", pre ++ "|=" ++ s!"{name f} <= {th}"]
+        ++ t.printNode showThr name fuel (t.left[node]!).toNat
+        ++ [pre ++ "|=" ++ s!"{name f} > {th}"]
+        ++ t.printNode showThr name fuel (t.right[node]!).toNat
+
 structure Params where
   maxClusters : Nat
   maxDepth : Nat      -- already resolved (`len(X)` when None)
@@ -275,6 +295,7 @@ structure FitState (α : Type) where
 
 def FitState.init (n : Nat) (p : Params) : FitState α :=
   { asg := ⟨n, Array.replicate n 0, Array.replicate p.maxLeaves 0⟩, tree := Tree.init,
+    toExplore := if n ≥ p.minSplit then [0] else [],
     leaf2node := Array.replicate p.maxLeaves 0 }
 
 /-- the loop guard `last_gain > 0 and n_leaves < max_leaves and len(leaves_to_explore) != 0` -/
